@@ -19,6 +19,12 @@ for _s, _v in _LIT.items():
     SYMBOLS[_s] = ({"space": 3}, _v, {"space": _LITBASE[_s]})
 for _s, _v in _MOL.items():
     SYMBOLS[_s] = ({"space": -3, "quantity": 1}, _v, {"space": "dm", "quantity": _s[:-1] + "mol"})
+# base symbols the module supports beyond the specification above (none today) are accepted with the module's own scale:
+# the grammar, not the symbol inventory, is what the rejection obligations are about
+for _k in ("space", "time", "quantity"):
+    for _s, _v in _units_conversion_dict[_k].items():
+        if _s not in SYMBOLS:
+            SYMBOLS[_s] = ({_k: 1}, _v, {_k: _s})
 
 
 def _micro(s):
